@@ -139,7 +139,8 @@ func (m *canaryReleaseManager) runCanary(c *RolloutContext) error {
 			To avoid this issue, we
 			- patch selector to stable Service before CanaryStepStateUpgrade step.
 		*/
-		if canaryStatus.CurrentStepIndex == 1 {
+		// (not when the stable Service was just restored above: this step replaces every stable pod)
+		if canaryStatus.CurrentStepIndex == 1 && !(expectedReplicas >= int(c.Workload.Replicas) && v1beta1.IsRealPartition(c.Rollout)) {
 			if !tr.DisableGenerateCanaryService {
 				klog.Infof("Before the first batch, rollout(%s/%s) patch stable Service", c.Rollout.Namespace, c.Rollout.Name)
 				retry, err := m.trafficRoutingManager.PatchStableService(tr)
